@@ -1418,3 +1418,133 @@ Lemma spec_merge (inc old : doc) (k : bytes) : NoDup (map fst inc) ->
   doc_get k (merge_doc delete_value old inc) =
   match doc_get k inc with Some v => merge_entry delete_value v | None => doc_get k old end.
 Proof. intros H. exact (merge_doc_get delete_value inc old k H). Qed.
+
+(* ========================= the refinement in terms of store_eqb =========== *)
+
+Lemma doc_remove_keys k x (d : doc) : In x (map fst (doc_remove k d)) -> In x (map fst d) /\ x <> k.
+Proof.
+  induction d as [|[i v] r IH]; cbn; [tauto|].
+  destruct (bytes_eqb k i) eqn:E.
+  - intros H. destruct (IH H). split; [now right|assumption].
+  - cbn. intros [<-|H].
+    + split; [now left|]. intros ->. now rewrite bytes_eqb_refl in E.
+    + destruct (IH H). split; [now right|assumption].
+Qed.
+Lemma doc_remove_wf k d : doc_wf d -> doc_wf (doc_remove k d).
+Proof.
+  unfold doc_wf. induction d as [|[i v] r IH]; cbn; intros H; [constructor|].
+  inversion H; subst. destruct (bytes_eqb k i); [now apply IH|].
+  cbn. constructor; [|now apply IH]. intros Hi. apply doc_remove_keys in Hi. tauto.
+Qed.
+Lemma doc_set_wf k v d : doc_wf d -> doc_wf (doc_set k v d).
+Proof.
+  intros H. unfold doc_set, doc_wf. cbn. constructor; [|now apply doc_remove_wf].
+  intros Hi. apply doc_remove_keys in Hi. tauto.
+Qed.
+Lemma merge_doc_wf dv inc : forall old, doc_wf old -> doc_wf (merge_doc dv old inc).
+Proof.
+  unfold merge_doc. induction inc as [|[k v] r IH]; intros old H; [assumption|].
+  cbn [fold_left fst snd]. apply IH.
+  destruct v; try (now apply doc_set_wf).
+  destruct (bytes_eqb s dv); [now apply doc_remove_wf|now apply doc_set_wf].
+Qed.
+
+Definition store_docs_wf (s : store) : Prop := Forall (fun p => doc_wf (snd p)) s.
+Lemma st_remove_docs_wf id s : store_docs_wf s -> store_docs_wf (st_remove id s).
+Proof.
+  unfold store_docs_wf. induction s as [|[i d] r IH]; cbn; intros H; [constructor|].
+  inversion H; subst. destruct (bytes_eqb id i); [now apply IH|]. constructor; [assumption|now apply IH].
+Qed.
+Lemma st_set_docs_wf id d s : doc_wf d -> store_docs_wf s -> store_docs_wf (st_set id d s).
+Proof. intros Hd H. unfold st_set. constructor; [assumption|now apply st_remove_docs_wf]. Qed.
+Lemma fold_set_docs_wf ps : forall s, Forall (fun p => doc_wf (snd p)) ps -> store_docs_wf s ->
+  store_docs_wf (fold_left (fun acc p => st_set (fst p) (snd p) acc) ps s).
+Proof.
+  induction ps as [|p r IH]; intros s Hp H; [assumption|]. inversion Hp; subst. cbn. apply IH; [assumption|].
+  now apply st_set_docs_wf.
+Qed.
+Lemma fold_remove_docs_wf l : forall s, store_docs_wf s -> store_docs_wf (fold_left (fun acc i => st_remove i acc) l s).
+Proof. induction l as [|p r IH]; intros s H; [assumption|]. cbn. apply IH. now apply st_remove_docs_wf. Qed.
+Lemma update_go_docs_wf sc maxsize ps : forall s s' ids es,
+  store_docs_wf s -> update_go sc maxsize ps s = (s', ids, es) -> store_docs_wf s'.
+Proof.
+  induction ps as [|[u inc] r IH]; intros s s' ids es Hs H; cbn [update_go] in H.
+  - inversion H; now subst.
+  - destruct (st_get u s) as [old|] eqn:Eu.
+    + destruct (update_go sc maxsize r (st_set u (merge_doc delete_value old inc) s)) as [[s1 ids1] es1] eqn:E1.
+      inversion H; subst. eapply IH; [|exact E1]. apply st_set_docs_wf; [|assumption].
+      apply merge_doc_wf. apply st_get_In in Eu. unfold store_docs_wf in Hs. rewrite Forall_forall in Hs.
+      exact (Hs _ Eu).
+    + eapply IH; eassumption.
+Qed.
+Lemma apply_spec_docs_wf sc maxsize b s : batch_wf b -> store_docs_wf s -> store_docs_wf (fst (apply_spec sc maxsize b s)).
+Proof.
+  intros Hb Hs. destruct b as [ps|ps|ids]; cbn [apply_spec batch_wf] in *.
+  - unfold insert_spec. destruct (has_dup (map fst ps)); [assumption|].
+    destruct ((if existsb (fun p => st_mem (fst p) s) ps then [ERR_EXISTS] else []) ++
+              (if forallb (fun p => well_typed sc (snd p)) ps then [] else [ERR_TYPE])); [|assumption].
+    now apply fold_set_docs_wf.
+  - unfold update_spec. destruct (update_go sc maxsize ps s) as [[s1 ids1] es1] eqn:E.
+    destruct es1; [|assumption]. cbn. eapply update_go_docs_wf; eassumption.
+  - unfold delete_spec. cbn. now apply fold_remove_docs_wf.
+Qed.
+Lemma runS_docs_wf sc maxsize h : forall s, hist_wf h -> store_docs_wf s -> store_docs_wf (fst (runS sc maxsize h s)).
+Proof.
+  induction h as [|b r IH]; intros s Hh Hs; cbn [runS]; [assumption|]. inversion Hh; subst.
+  pose proof (apply_spec_docs_wf sc maxsize b s H1 Hs) as H1'.
+  destruct (apply_spec sc maxsize b s) as [s1 o1]. cbn [fst] in H1'.
+  specialize (IH s1 H2 H1'). destruct (runS sc maxsize r s1) as [s2 os]. exact IH.
+Qed.
+
+Lemma doc_get_first k v (d : doc) : doc_wf d -> In (k, v) d -> doc_get k d = Some v.
+Proof.
+  unfold doc_wf. induction d as [|[i w] r IH]; cbn; intros Hnd Hin; [contradiction|].
+  inversion Hnd; subst. destruct Hin as [E|Hin].
+  - inversion E; subst. now rewrite bytes_eqb_refl.
+  - destruct (bytes_eqb k i) eqn:E; [|now apply IH].
+    apply bytes_eqb_eq in E. subst i. exfalso. apply H1. apply in_map_iff. now exists (k, v).
+Qed.
+Lemma doc_eqb_refl d : doc_wf d -> doc_eqb d d = true.
+Proof.
+  intros H. unfold doc_eqb. rewrite Nat.eqb_refl. cbn [andb].
+  assert (Hs : doc_sub d d = true).
+  { unfold doc_sub. apply forallb_forall. intros [k v] Hi. cbn [fst snd].
+    rewrite (doc_get_first k v d H Hi). apply value_eqb_refl. }
+  now rewrite Hs.
+Qed.
+Lemma st_get_first u d (s : store) : st_nodup s -> In (u, d) s -> st_get u s = Some d.
+Proof.
+  unfold st_nodup. induction s as [|[i w] r IH]; cbn; intros Hnd Hin; [contradiction|].
+  inversion Hnd; subst. destruct Hin as [E|Hin].
+  - inversion E; subst. now rewrite bytes_eqb_refl.
+  - destruct (bytes_eqb u i) eqn:E; [|now apply IH].
+    apply bytes_eqb_eq in E. subst i. exfalso. apply H1. apply in_map_iff. now exists (u, d).
+Qed.
+Lemma store_sub_same a b : st_nodup a -> store_docs_wf a -> store_same a b -> store_sub a b = true.
+Proof.
+  intros Ha Hw H. unfold store_sub. apply forallb_forall. intros [u d] Hi. cbn [fst snd].
+  rewrite <- (H u), (st_get_first u d a Ha Hi). apply doc_eqb_refl.
+  unfold store_docs_wf in Hw. rewrite Forall_forall in Hw. exact (Hw _ Hi).
+Qed.
+Lemma store_same_docs_wf a b : st_nodup a -> store_same a b -> store_docs_wf b -> store_docs_wf a.
+Proof.
+  intros Ha H Hb. unfold store_docs_wf in *. rewrite Forall_forall in *. intros [u d] Hi.
+  pose proof (st_get_first u d a Ha Hi) as Hg. rewrite (H u) in Hg. apply st_get_In in Hg. exact (Hb _ Hg).
+Qed.
+
+Lemma refines_eqb sc maxsize h css m outs :
+  hist_wf h -> runM sc maxsize h css m_init = Some (m, outs) ->
+  store_eqb (abs m) (fst (runS sc maxsize h [])) = true.
+Proof.
+  intros Hh H. destruct (run_sim _ _ _ _ _ _ _ _ Sim_init H) as [_ [I L]].
+  set (S := fst (runS sc maxsize h [])) in *.
+  assert (Ha : st_nodup (abs m)).
+  { unfold st_nodup, abs, abs_bucket. apply abs_ids_NoDup. apply (wf_nodup _ (inv_wf _ I)). }
+  assert (Hb : st_nodup S) by (apply runS_nodup; constructor).
+  assert (Hs : store_same (abs m) S).
+  { intros id. unfold abs. rewrite abs_get by apply (inv_wf _ I). apply L. }
+  assert (Hw : store_docs_wf S) by (apply runS_docs_wf; [assumption|constructor]).
+  unfold store_eqb. rewrite (store_same_length _ _ Ha Hb Hs), Nat.eqb_refl.
+  rewrite (store_sub_same _ _ Ha (store_same_docs_wf _ _ Ha Hs Hw) Hs).
+  rewrite (store_sub_same S (abs m) Hb Hw); [reflexivity|]. intros id. symmetry. apply Hs.
+Qed.
